@@ -11,9 +11,16 @@
 // accessor, `IncludeRollup::parse/should_include`, `SequencerBlock::split_for_celestia`, and the
 // decode functions conductor uses (`decompress_bytes`, prost decode of the two list types,
 // `SubmittedMetadata::try_from_raw`, `SubmittedRollupData::try_from_raw`).
-// What is REPLICATED from `BlobSubmitter::run` (an async select loop that needs a Celestia gRPC
-// endpoint): the three lines of the `recv` arm (capacity guard, "already submitted" skip), the
-// `pending_block.take()` hand-over after a take, and the completion of the in-flight submission.
+// Two kinds of sessions:
+//  * step sessions (`batch reset|recv|take|takedrop|done|end`): the harness plays the arms of
+//    `BlobSubmitter::run` one at a time around the real functions, so every intermediate result is
+//    visible. REPLICATED here: the three lines of the `recv` arm (capacity guard, "already
+//    submitted" skip), the `pending_block.take()` hand-over after a take, and the completion of
+//    the in-flight submission;
+//  * end-to-end sessions (`batch e2e-…`): the REAL `BlobSubmitter::run` select loop runs as a
+//    task against an in-process Celestia app (gRPC on 127.0.0.1:0) that confirms one `BlobTx` at
+//    a time; blocks go through the real `BlobSubmitterHandle`, the `BlobTx` blobs the mock
+//    receives are decoded and compared.
 // The relayer crate cannot depend on astria-conductor, so conductor's `convert.rs` steps are
 // replicated with the same astria-core functions.
 #![allow(clippy::pedantic, clippy::all, dead_code, unused_imports)]
